@@ -146,6 +146,11 @@ def gen_quic_conn(R, cid, cfg, used, **epkw):
             fl["ku"] = A.choice(sides)
         if A.chance(cfg.get("cid_switch_pct", 30)):
             fl["cid_switch"] = {d: A.range(0, 3) for d in sides}
+        if "s" in sides and fl["s"] and A.chance(cfg.get("nst_pct", 20)):
+            # the server sends a NewSessionTicket: a TLS handshake message in a CRYPTO frame of a 1-RTT packet
+            pk0 = fl["s"][0]["pk"][0]
+            pk0["frames"].insert(A.below(len([x for x in pk0["frames"] if x[0] != "stream" or x[4]]) + 1) if False else 0,
+                                 ["nst", A.range(20, 200)])
         script.append(fl)
     q["script"] = script
     q["net_seed"] = R.bits(40)
@@ -234,6 +239,12 @@ def _enc_frames(R, specs, side: Side, st, meta):
             data = f[2]
             out += Q.f_crypto(f[1], data, f[3] if len(f) > 3 else None, None)
             meta.append({"n": "CryptoFrame", "offset": f[1], "data": data.hex()})
+        elif k == "nst":
+            msg = b"\x04" + (f[1]).to_bytes(3, "big") + R.fork("nst", i).bytes(f[1])
+            off = side.crypto_off["app"]
+            side.crypto_off["app"] = off + len(msg)
+            out += Q.f_crypto(off, msg)
+            meta.append({"n": "CryptoFrame", "offset": off, "data": msg.hex()})
         elif k == "hsdone":
             out += Q.f_handshake_done()
             meta.append({"n": "HandshakeDoneFrame"})
